@@ -417,6 +417,30 @@ class Registry:
             return self.key_ops_table[a]
         brk('no ordering registered for container key type %r' % key)
 
+    def name_of(self, em, ty):
+        """the C name the model of this type has (or would have), without creating it"""
+        n = ty.name
+        a = ty.args
+        nc = lambda t: Ty(t.kind, t.name, t.args, False, t.inner, t.params, t.size)
+        if n == 'std::string':
+            return 'str'
+        if n == 'std::pair' and len(a) == 2:
+            return 'pair_%s_%s' % (em.abbr(nc(a[0])) if False else em.abbr(a[0]), em.abbr(a[1]))
+        if n in ('std::vector', 'std::queue', 'std::initializer_list') and a:
+            return 'vec_' + em.abbr(a[0])
+        if n == 'std::map' and len(a) >= 2:
+            return 'map_%s_%s' % (em.abbr(nc(a[0])), em.abbr(a[1]))
+        if n == 'std::unordered_map' and len(a) >= 2:
+            return 'umap_%s_%s' % (em.abbr(nc(a[0])), em.abbr(a[1]))
+        if n == 'std::set' and a:
+            return 'set_' + em.abbr(a[0])
+        if n == 'std::unordered_set' and a:
+            return 'uset_' + em.abbr(a[0])
+        if n in ('std::_Rb_tree_iterator', 'std::_Rb_tree_const_iterator', '__gnu_cxx::__normal_iterator', 'std::__detail::_Node_iterator',
+                 'std::__detail::_Node_const_iterator', 'std::__detail::_Node_iterator_base') or (ty.params and n.split('::')[-1] in ('iterator', 'const_iterator')):
+            return 'it'
+        return None
+
     def lookup(self, em, ty):
         if ty.kind != 'name':
             return None
@@ -578,8 +602,14 @@ class Registry:
         if x.get('kind') != 'LambdaExpr':
             brk('%s: expected a lambda, got %s' % (fe.f.get('name'), x.get('kind')))
         rec = [c for c in x.get('inner', []) if c.get('kind') == 'CXXRecordDecl'][0]
-        if any(c.get('kind') == 'FieldDecl' for c in rec.get('inner', [])):
-            return self.lift_capturing_lambda(fe, x, rec)
+        caps = [c for c in rec.get('inner', []) if c.get('kind') == 'FieldDecl']
+        captures_this = False
+        if caps:
+            # only a capture of `this` is supported: the lifted function gets the enclosing object as an extra parameter
+            if len(caps) == 1 and caps[0].get('type', {}).get('qualType', '').rstrip().endswith('*') and not caps[0].get('name'):
+                captures_this = True
+            else:
+                return self.lift_capturing_lambda(fe, x, rec)
         ops = []
         for c in rec.get('inner', []):
             if c.get('kind') == 'CXXMethodDecl' and c.get('name') == 'operator()':
@@ -605,7 +635,13 @@ class Registry:
         em.mangled_of_cname[name] = name
         sub = FuncEmitter(em, fe.tu, f2)
         out = sub.emit()
-        em.static_funcs.append('static ' + out['proto'] + '\n' + out['body'])
+        proto = out['proto']
+        if captures_this:
+            rec_q = fe.rec or fe.record_of_method()
+            selfp = 'struct %s *self' % em.rec_cname(rec_q)
+            proto = proto.replace('(void)', '(%s)' % selfp) if '(void)' in proto else proto.replace('(', '(' + selfp + ', ', 1)
+        em.static_funcs.append('static ' + proto + '\n' + out['body'])
+        sub.captures_this = captures_this
         return name, sub
 
     def lift_capturing_lambda(self, fe, x, rec):
@@ -664,6 +700,56 @@ def default_registry():
             brk('make_pair of %r' % t)
         return m.construct(fe, None, args, node)
     r.free['make_pair'] = h_make_pair
+
+    def _algo(kind):
+        def h(fe, args, node):
+            lname, sub = r.lift_lambda(fe, args[2])
+            et = fe.ty(args[0])
+            m = r.lookup(fe.em, et.strip_ref())
+            if m is None or not m.is_iter:
+                brk('std::%s on non-iterator %r' % (kind, et))
+            fe.em.algo_counter = getattr(fe.em, 'algo_counter', 0) + 1
+            fname = 'xt_%s%d' % (kind, fe.em.algo_counter)
+            T = m.elem
+            sp = ''
+            sa = ''
+            call = '%s(%%s)' % lname
+            if getattr(sub, 'captures_this', False):
+                rec_q = fe.rec or fe.record_of_method()
+                sp = 'struct %s *self, ' % fe.em.rec_cname(rec_q)
+                sa = 'self, '
+                call = '%s(self, %%s)' % lname
+            # rendered in place as a GNU statement expression (goto-cc accepts them): no helper function, so the loop and its
+            # locals belong to the calling function (this matters inside loops that carry a contract)
+            bexp, eexp = fe.expr(args[0]), fe.expr(args[1])
+            fe.em.algo_counter += 0
+            k = fe.em.algo_counter
+            B, E, P, Rr = 'xb%d' % k, 'xe%d' % k, 'xp%d' % k, 'xr%d' % k
+            head = '%s *%s = %s; %s *%s = %s; ' % (T, B, bexp, T, E, eexp)
+            if kind == 'find_if':
+                return '({ %s%s *%s = %s; for (%s *%s = %s; %s != %s; ) { %s--; if (%s) %s = %s; } %s; })' % (head, T, Rr, E, T, P, E, P, B, P, call % P, Rr, P, Rr)
+            if kind == 'any_of':
+                return '({ %s_Bool %s = 0; for (%s *%s = %s; %s != %s; %s++) if (%s) %s = 1; %s; })' % (head, Rr, T, P, B, P, E, P, call % P, Rr, Rr)
+            if kind == 'all_of':
+                return '({ %s_Bool %s = 1; for (%s *%s = %s; %s != %s; %s++) if (!%s) %s = 0; %s; })' % (head, Rr, T, P, B, P, E, P, call % P, Rr, Rr)
+            if kind == 'none_of':
+                return '({ %s_Bool %s = 1; for (%s *%s = %s; %s != %s; %s++) if (%s) %s = 0; %s; })' % (head, Rr, T, P, B, P, E, P, call % P, Rr, Rr)
+            if kind == 'count_if':
+                return '({ %sI_t %s = 0; for (%s *%s = %s; %s != %s; %s++) if (%s) %s++; %s; })' % (head, Rr, T, P, B, P, E, P, call % P, Rr, Rr)
+            if kind == 'min_element':
+                return '({ %s%s *%s = %s; if (%s != %s) for (%s *%s = %s + 1; %s != %s; %s++) if (%s) %s = %s; %s; })' % (
+                    head, T, Rr, B, B, E, T, P, B, P, E, P, call % ('%s, %s' % (P, Rr)), Rr, P, Rr)
+        return h
+    for _k in ('find_if', 'any_of', 'all_of', 'none_of', 'count_if', 'min_element'):
+        r.free[_k] = _algo(_k)
+
+    def h_infinity(fe, args, node):
+        return 'CM_DBL_INF'
+    r.free['infinity'] = h_infinity
+
+    def h_isfinite(fe, args, node):
+        return 'cm_isfinite(%s)' % fe.expr(args[0])
+    r.free['isfinite'] = h_isfinite
 
     def h_swap(fe, args, node):
         ct = fe.em.ctype(fe.ty(args[0]).strip_ref())
